@@ -16,3 +16,57 @@ let () =
       nlist w ^ " " ^ String.concat "," (List.map (fun x ->
           match renumber graph rs x with Some v -> Printf.sprintf "%d=%d" (int_of_n x) (int_of_n v) | None -> "") w)
     | _ -> "?args")
+
+(* ---- writer model: document description file -> bytes ---- *)
+let hx s = if s = "" then [] else unhexbytes s
+
+let rec parse_o (toks : string list) : obj * string list =
+  match toks with
+  | [] -> failwith "obj"
+  | t :: rest ->
+    let body = String.sub t 1 (String.length t - 1) in
+    (match t.[0] with
+     | 'n' -> (ONull, rest)
+     | 't' -> (OBool true, rest)
+     | 'f' -> (OBool false, rest)
+     | 'i' -> (OInt (z_of_int (int_of_string body)), rest)
+     | 'r' -> (OReal (hx body), rest)
+     | 's' -> (OStr (hx body), rest)
+     | 'N' -> (OName (hx body), rest)
+     | 'R' -> (ORef (n_of_int (int_of_string body)), rest)
+     | 'a' ->
+       let n = int_of_string body in
+       let rec go k r acc = if k = 0 then (List.rev acc, r) else let (o, r') = parse_o r in go (k - 1) r' (o :: acc) in
+       let (l, r) = go n rest [] in (OArr l, r)
+     | 'd' ->
+       let n = int_of_string body in
+       let rec go k r acc = if k = 0 then (List.rev acc, r) else
+           (match r with
+            | key :: r1 -> let (o, r2) = parse_o r1 in go (k - 1) r2 ((hx (String.sub key 1 (String.length key - 1)), o) :: acc)
+            | [] -> failwith "dict") in
+       let (l, r) = go n rest [] in (ODict l, r)
+     | _ -> failwith ("tok " ^ t))
+
+let () =
+  register "write_docf" (fun args -> match args with
+    | [inp; outp] ->
+      let ic = open_in inp in
+      let objs = ref [] and trailer = ref [] and ver = ref [] and id1 = ref [] and id2 = ref [] in
+      (try while true do
+           let line = input_line ic in
+           match String.split_on_char ' ' line with
+           | "version" :: [h] -> ver := hx h
+           | "id1" :: [h] -> id1 := hx h
+           | "id2" :: [h] -> id2 := hx h
+           | "trailer" :: toks -> (match fst (parse_o toks) with ODict d -> trailer := d | _ -> ())
+           | "obj" :: id :: toks -> objs := (n_of_int (int_of_string id), { i_val = fst (parse_o toks); i_stream = None }) :: !objs
+           | "stream" :: id :: data :: toks ->
+             objs := (n_of_int (int_of_string id), { i_val = fst (parse_o toks); i_stream = Some (hx (if data = "-" then "" else data)) }) :: !objs
+           | _ -> ()
+         done with End_of_file -> close_in ic);
+      let d = { d_objects = List.rev !objs; d_trailer = !trailer; d_version = !ver; d_id1 = !id1; d_id2 = !id2 } in
+      let out = write_doc wm_unparse_string wm_unparse_name d in
+      let oc = open_out_bin outp in
+      output_string oc (string_of_bytes out); close_out oc;
+      "ok " ^ string_of_int (List.length out)
+    | _ -> "?args")
